@@ -202,20 +202,37 @@ func (f *QuadraticFieldExtensionImpl[BFP, A, BF]) Sqrt(v *QuadraticFieldExtensio
 	ok3p := BFP(&pos).Sqrt(&pos)
 	ok3n := BFP(&neg).Sqrt(&neg)
 
+	// If v.U1 == 0, one of (v.U0 +- sqrt(norm))/2 is v.U0 and the other is 0.
+	// The zero one must not win the selection of U0 below: it cannot be
+	// inverted to obtain U1.
 	okp := ok1 & ok2 & ok3p
-	okn := ok1 & ok2 & ok3n
+	okn := ok1 & ok2 & ok3n & BFP(&neg).IsNonZero()
 
 	BFP(&com).Select(okp, &com, &pos)
 	BFP(&com).Select(okn, &com, &neg)
 	BFP(&com).Add(&com, &com)
 	ok4 := BFP(&com).Inv(&com)
 	BFP(&com).Mul(&com, &v.U1)
+	okg := (okp | okn) & ok4
+
+	// Remaining case: v.U1 == 0 and v.U0 is zero or not a square in the base
+	// field. Then v.U0/beta is a square there and sqrt(v) = sqrt(v.U0/beta)*u.
+	var betaInv, zero, u1 BF
+	BFP(&zero).SetZero()
+	BFP(&betaInv).SetOne()
+	arith.MulByQuadraticNonResidue(&betaInv, &betaInv)
+	okb := BFP(&betaInv).Inv(&betaInv)
+	BFP(&u1).Mul(&v.U0, &betaInv)
+	okb &= BFP(&u1).Sqrt(&u1)
+	okb &= BFP(&v.U1).IsZero() & okg.Not()
 
 	BFP(&f.U0).Select(okp&ok4, &f.U0, &pos)
 	BFP(&f.U0).Select(okn&ok4, &f.U0, &neg)
-	BFP(&f.U1).Select((okp|okn)&ok4, &f.U1, &com)
+	BFP(&f.U1).Select(okg, &f.U1, &com)
+	BFP(&f.U0).Select(okb, &f.U0, &zero)
+	BFP(&f.U1).Select(okb, &f.U1, &u1)
 
-	return (okp | okn) & ok4
+	return okg | okb
 }
 
 func (f *QuadraticFieldExtensionImpl[BFP, A, BF]) IsNonZero() ct.Bool {
